@@ -1,0 +1,77 @@
+//go:build verif
+
+package panos
+
+// Exports for the verification harness of property C18 (merge of IPv4, IPv6
+// and raw configuration). Added file only; not part of the normal build.
+
+import (
+	"sort"
+	"strings"
+
+	"github.com/hknutzen/Netspoc-Approve/go/pkg/deviceconf"
+)
+
+type VerifC18Rule struct {
+	Name   string
+	Append bool
+}
+
+// Object with name and a canonical text of its definition.
+type VerifC18Obj struct{ Name, Val string }
+
+type VerifC18Vsys struct {
+	Name          string
+	Rules         []VerifC18Rule
+	Addresses     []VerifC18Obj
+	AddressGroups []VerifC18Obj
+	Services      []VerifC18Obj
+	ServiceGroups []VerifC18Obj
+}
+
+type VerifC18Conf struct {
+	NEntries int    // number of <devices><entry>, -1 if <devices> is missing
+	DevName  string // name of first entry
+	Vsys     []VerifC18Vsys
+}
+
+// VerifC18Dump shows what MergeSpoc looks at: first device entry, its vsys in
+// stored order with rules (name, APPEND mark) and objects.
+func VerifC18Dump(c deviceconf.Config) VerifC18Conf {
+	p, _ := c.(*PanConfig)
+	r := VerifC18Conf{NEntries: -1}
+	if p == nil || p.Devices == nil {
+		return r
+	}
+	r.NEntries = len(p.Devices.Entries)
+	if r.NEntries == 0 {
+		return r
+	}
+	d := p.Devices.Entries[0]
+	r.DevName = d.Name
+	members := func(l []string) string {
+		s := append([]string{}, l...)
+		sort.Strings(s)
+		return strings.Join(s, ",")
+	}
+	for _, v := range d.Vsys {
+		dv := VerifC18Vsys{Name: v.Name}
+		for _, ru := range v.Rules {
+			dv.Rules = append(dv.Rules, VerifC18Rule{ru.Name, ru.Append != nil})
+		}
+		for _, o := range v.Addresses {
+			dv.Addresses = append(dv.Addresses, VerifC18Obj{o.Name, verifInner(o)})
+		}
+		for _, o := range v.AddressGroups {
+			dv.AddressGroups = append(dv.AddressGroups, VerifC18Obj{o.Name, members(o.Members)})
+		}
+		for _, o := range v.Services {
+			dv.Services = append(dv.Services, VerifC18Obj{o.Name, verifInner(o)})
+		}
+		for _, o := range v.ServiceGroups {
+			dv.ServiceGroups = append(dv.ServiceGroups, VerifC18Obj{o.Name, members(o.Members)})
+		}
+		r.Vsys = append(r.Vsys, dv)
+	}
+	return r
+}
